@@ -23,11 +23,11 @@ CLAIMS = {
        "pair compared once, in order, with the operator's comparator) and the query traversal step by step: accumulate (`[*]`/`*` over a "
        "list: empty -> unresolved, else continue at the next position with every element in order), retrieve_index (all i32: element |i| "
        "iff |i| < len), map_resolved, the filter on a map value, and the dispatcher arm by arm (this, [*] and * on list / map / scalar incl. the per-entry continuations that capture a named key, [n], "
-       ".key, [filter] on list) - each against an arbitrary result of the continuation.",
+       ".key and .n, [filter] on list and on map, [ keys <op> v ] on a map incl. 'the key comparison always answers with a per-value list') - each against an arbitrary result of the continuation.",
   note="Also on MIR: the variable head of a query (resolved through the scope, each value continued at the next position), EqOperation / "
        "InOperation operand roles (a left value is always paired with a right value, by compare_eq), contained_in's five cases, and the "
-       "rule-status rule `rule referenced by name = its RuleCheck status`. NOT covered: the parser, the traversal arms for a variable key, "
-       "filters on a map and `keys` filters, and the recursion as a whole (each step is decided against an arbitrary result of the next), the "
+       "rule-status rule `rule referenced by name = its RuleCheck status`. NOT covered: the parser, the traversal arm for a variable key "
+       "and the recursion as a whole (each step is decided against an arbitrary result of the next), the "
        "literal-vs-query special cases and list flattening of EqOperation / InOperation, functions inside clauses. The Kani evaluation context "
        "is a harness stub that returns planted query results; the MIR checks model every callee by a symbolic result and keep loops to "
        "<= 2 iterations (longer selections are cut and counted in the evidence).",
@@ -139,7 +139,8 @@ CLAIMS = {
        "(z3+cvc5; havoc mode, directed CFG paths) for failing arithmetic-overflow / negate asserts in emit_code, retrieve_index and "
        "query_retrieval_with_converter, and for out-of-bounds `v[i]` in operators::contained_in, EqOperation::compare and "
        "each_lhs_compare and in the argument lists of the substring / join / regex_replace built-ins (len / is_empty / index modelled per "
-       "value; arity assumed as checked by the parser), and for `unwrap()` on the fallible parameter merge of the --structured path and on template content in rulegen's gen_rules; "
+       "value; arity assumed as checked by the parser), and for `unwrap()` on the fallible parameter merge of the --structured path and on template content in rulegen's gen_rules, and for the `unreachable!()` of the keys-filter arm (the comparison behind it "
+       "never answers with another kind of result); "
        "every candidate is replayed through the real CLI. Eight genuine C08 defects were found this way and fixed "
        "(known_findings.json: fixed).",
   note="NOT covered: arbitrary bytes through the nom parser and libyaml, recursion depth, the report builder's unreachable!()s, "
